@@ -1551,6 +1551,13 @@ M('C17', 'original defect: MultiSpeciesLattice inherits the attribute-wise loade
   "    def save_hdf5(self, hdf5_saver, h5gr, subpath):\n        \"\"\"Export `self` into a HDF5 file.\n\n        In addition to the data saved by :meth:`Lattice.save_hdf5`, it saves\n        :attr:`simple_lattice`, :attr:`N_species`, :attr:`species_names` and :attr:`simple_Lu`\n        under these names.\n        \"\"\"\n        super().save_hdf5(hdf5_saver, h5gr, subpath)\n        hdf5_saver.save(self.simple_lattice, subpath + 'simple_lattice')\n        hdf5_saver.save(self.N_species, subpath + 'N_species')\n        hdf5_saver.save(self.species_names, subpath + 'species_names')\n        hdf5_saver.save(self.simple_Lu, subpath + 'simple_Lu')\n\n    @classmethod\n    def from_hdf5(cls, hdf5_loader, h5gr, subpath):\n        \"\"\"Load instance from a HDF5 file; see :meth:`save_hdf5`.\"\"\"\n        obj = super().from_hdf5(hdf5_loader, h5gr, subpath)\n        obj.simple_lattice = hdf5_loader.load(subpath + 'simple_lattice')\n        obj.N_species = hdf5_loader.load(subpath + 'N_species')\n        obj.species_names = hdf5_loader.load(subpath + 'species_names')\n        obj.simple_Lu = hdf5_loader.load(subpath + 'simple_Lu')\n        return obj\n\n", '',
   'HDF5-inherited-loader')
 
+M('C02', 'original defect: iswapaxes re-binds _qdata to an F-contiguous column selection', NPC,
+  "        self._qdata = np.array(self._qdata[:, swap], order='C')  # (column selection is F-contiguous)", "        self._qdata = self._qdata[:, swap]",
+  'QDATA-contiguous')
+M('C02', 'original defect: add_leg indexes the extended tensor with rank entries', NPC,
+  "        slices = [slice(None, None)] * extended.rank  # (one more than self.rank: `axis` may be the last)", "        slices = [slice(None, None)] * self.rank",
+  'INDEX-rank')
+
 # ---------------------------------------------------------------- C16 / C19
 M('C16', 'GMRES restart: relative residual norm used for normalisation (round-3 seed b)', KRY,
   """        self.total_error.append([npc.norm(self.rs[-1]) / self.b_norm])
